@@ -28,12 +28,18 @@ LEVEL_TEXT = (
     "select both segment-wise routes have their general formula proved (generate_select_formula: atom select[i] on sector "
     "i; compute_select_formula: atom i on sector i once per occurrence, compute_select_perm: order of select irrelevant). "
     "Only the NumPy array pipeline n_p .. np.prod (text-pinned, read entry by entry), SciPy's CubicSpline and the file "
-    "contents (named primitives) are tied by the differential run alone."
+    "contents (named primitives) are tied by the differential run alone. Round 3: grid.utils.get_cov_radii and the tables _bragg, "
+    "_cambridge, _alvarez it selects from are regenerated (Gen/CovRadii.lean): get_cov_radii_generated (zero rejected first, the three "
+    "selections, exact spelling, NumPy indexing incl. negative indices), get_cov_radii_bragg_eq + init_reads_generated_table (the call made "
+    "by __init__, with the generated default cov_type, returns the dictionary values of the radius theorems), cov_tables_shape and "
+    "cov_radii_positive_other (kernel-decided: lengths, nan exactly at He Ne Ar Kr Xe At Rn, every other entry positive); "
+    "alpha_raw_closed_form / alpha_clip_window state the clipping window on the regenerated cutoff 9/20."
 )
 TECHNIQUE = "Lean 4 proof (generated formulas + hand model of the array code) + differential correspondence + oracle on the implementation"
-GEN = ["becke", "becke_routes", "hirshfeld"]
+GEN = ["becke", "becke_routes", "hirshfeld", "covradii"]
 LEAN_MODULES = ["GridVerif.Props.C06", "GridVerif.Props.C06.Index", "GridVerif.Props.C06.Radii", "GridVerif.Props.C06.Routes",
-                "GridVerif.Props.C06.Select", "GridVerif.Props.C06.Init", "GridVerif.Props.C06.CallGen", "GridVerif.Props.C06.Hirshfeld"]
+                "GridVerif.Props.C06.Select", "GridVerif.Props.C06.Init", "GridVerif.Props.C06.CallGen", "GridVerif.Props.C06.Hirshfeld",
+                "GridVerif.Props.C06.CovRadii", "GridVerif.Props.C06.Window"]
 THEOREMS = [
     "GridVerif.C06.switch_maps_unit",
     "GridVerif.C06.switch_lt_one",
@@ -88,6 +94,15 @@ THEOREMS = [
     "GridVerif.C06.hirshfeld_share_generated",
     "GridVerif.C06.hirshfeld_sum_one_generated",
     "GridVerif.C06.hirshfeld_needs_files",
+    # round 3: the generated get_cov_radii and its three tables; the clipping window on the regenerated cutoff
+    "GridVerif.C06.get_cov_radii_generated",
+    "GridVerif.C06.get_cov_radii_bragg_eq",
+    "GridVerif.C06.cov_bragg_table_eq",
+    "GridVerif.C06.init_reads_generated_table",
+    "GridVerif.C06.cov_tables_shape",
+    "GridVerif.C06.cov_radii_positive_other",
+    "GridVerif.C06.alpha_raw_closed_form",
+    "GridVerif.C06.alpha_clip_window",
 ]
 RULE = (
     "correspondence: molecules with 1..13 atoms (1..4 always; one with 40, thorough: 100+), atomic numbers 1..86 incl. "
@@ -103,12 +118,24 @@ RULE = (
     "int32 indices, tuple/ndarray pt_ind, np.int64 select; lists as information) against the float64/int64 call; one "
     "BeckeWeights / HirshfeldWeights object reused over several molecules in shuffled order (same sizes, other "
     "elements) against fresh objects and the stateless model; the generated formulas (switch, alpha, chunk size, radii). "
+    "Round 3: grid.utils.get_cov_radii (three selections, default, rejected spellings, zero, integer scalars of every kind, lists / "
+    "arrays with negative and out-of-range entries) bit for bit against the GENERATED function on the regenerated tables, the "
+    "array handed out scribbled on and the call repeated; every route on systems shifted by exactly representable 2^10..2^20 and "
+    "by moderate non-representable vectors, on geometries scaled by 1e-12..1e12 / 2^+-40, on user radii scaled by 1e-12..1e12 / "
+    "2^+-500, radii 5e-324 / 1e-300 / 1e300 next to ordinary ones, radius ratios with raw alpha = 0.45 f for f on both sides of the "
+    "cutoff within 1.01, 1.0001, 1e-12 and 100 (window theorem alpha_clip_window); dictionary values -0.0 / 5e-324 / 1e-300 / 1e300 in "
+    "the nan fall-back. Oracle: bit-exact invariance under exact translations (dyadic data) of generate_weights / compute_atom_weight / "
+    "__call__ / Hirshfeld, nuclei clause in the shifted frame, rotation + large / moderate shift within 16 eps |shift| 1.5^order / d_min, "
+    "scale invariance in geometry and radii, all clauses on the extreme variants, nuclei 1e-6 apart and mid-points for Hirshfeld; "
+    "histories: dictionary edited after the constructor / shared by two objects, results edited in place, alternating cutoff, routes in "
+    "every order on one object, get_cov_radii result edited, Hirshfeld object and generate_proatom result reused. "
     "non-trivial = >=4 atoms with >=2 chunks, or a clipped heteronuclear pair, or a nan-radius element, or a point on a nucleus"
 )
 TRUSTED_BASE = [
     "Lean 4.33 kernel; axioms propext, Classical.choice, Quot.sound only (audited per theorem)",
     "translators harness/translate/becke.py (formulas, call arguments), becke_routes.py (__init__, the four routines, radius "
-    "comprehension, statement by statement) and hirshfeld.py (all four methods); the driver runs the generated definitions, "
+    "comprehension, statement by statement), hirshfeld.py (all four methods) and covradii.py (get_cov_radii, the three tables as "
+    "loaded; primitives Model/CovRadiiPy.lean: NumPy integer indexing); the driver runs the generated definitions, "
     "so a translator error shows as a disagreement with the implementation",
     "primitives Model/BeckePy.lean (pyGetItem, pyRange, npSliceAddInto, npSliceSet, npColDivRowSum, dictionaries, f-string "
     "formatting) and the entry-wise reading `cellTab` of the text-pinned array pipeline (Model/Becke.lean: nan->1 as 'skip B = A'), "
@@ -613,6 +640,8 @@ def corr(ctx: Ctx):
     _corr_hirshfeld_gen(ctx, hmod)
     _corr_kinds(ctx, mod, hmod)
     _corr_reuse(ctx, mod, hmod)
+    _corr_covradii(ctx)
+    _corr_extreme(ctx, mod)
 
 
 # ----------------------------------------------------------------------------------------------
@@ -815,6 +844,9 @@ def oracle(ctx: Ctx, budget: str):
             mol["order"] = rng.choice([6, 7, 8])         # legitimate, large: the weights approach step functions
         tab = _table(rng, len(mol["pts"]), len(mol["at"]))
         _oracle_molecule(ctx, mod, mol, tab, motions=(i % 2 == 0 and not big_order), kinds=(i % 7 == 3))
+    _oracle_alpha_window(ctx, mod)
+    _oracle_extreme(ctx, mod, hmod, budget)
+    _oracle_histories(ctx, mod, hmod, budget)
     # orders >= 9: in double precision 1 - f^[order](nu) underflows to exactly 0 for nu >~ 0.4, so at points where every atom
     # loses against some partner (heteronuclear molecules, >= 3 atoms) all cell products are 0 and the weights are 0/0 = nan.
     # Over the reals the clause holds for every order (cell_sum_pos); rounding is outside the model -> recorded with a witness.
@@ -918,7 +950,8 @@ def _corr_init(ctx: Ctx, mod):
             rval, toks = {}, []
             for _i in range(k):
                 z = rng.choice([1, 2, 3, 6, 10, 17, 18, 36, 85, 86, 87, 100, 0, -1, rng.randrange(1, 87)])
-                v = rng.choice([0.5, 1.0, 2.25, float("nan"), rng.uniform(0.2, 5.0), 0.0])
+                v = rng.choice([0.5, 1.0, 2.25, float("nan"), rng.uniform(0.2, 5.0), 0.0,
+                                -0.0, 5e-324, 1e-300, 1e300])    # np.nan_to_num(x) or …: zero of either sign is falsy, every positive number truthy
                 kind = rng.random()
                 if kind < 0.72:
                     key, kt = int(z), f"i {int(z)}"
@@ -1258,3 +1291,450 @@ def _corr_reuse(ctx: Ctx, mod, hmod):
                      witness=dict(atnums=nums, atcoords=at, points=pts, indices=tab, step=step))
         first.setdefault(ci, got.copy())
         got[:] = -1.0           # the caller's edit of a result must not leak into later calls
+
+
+# ----------------------------------------------------------------------------------------------
+# round 3: get_cov_radii through the generated function; inputs next to the hard-coded constants; data of extreme
+# magnitude; large exactly representable shifts; objects / dictionaries / results reused by the caller
+# ----------------------------------------------------------------------------------------------
+EPS = 2.0 ** -52
+
+
+def _dmin(at):
+    m = len(at)
+    if m < 2:
+        return 1.0
+    d = np.linalg.norm(at[:, None] - at, axis=-1)
+    return float(np.min(d[~np.eye(m, dtype=bool)]))
+
+
+def _corr_covradii(ctx: Ctx):
+    """`grid.utils.get_cov_radii` (all three selections, rejected spellings, zero, scalars of every integer kind, lists and
+    arrays incl. negative / out-of-range indices) against the GENERATED function on the regenerated tables, bit for bit;
+    the array it hands out is scribbled on and the call repeated (class 9)."""
+    U = importlib.import_module("grid.utils")
+    rng = ctx.rng
+    snap = [U._bragg.tobytes(), U._cambridge.tobytes(), U._alvarez.tobytes()]
+    types = ["bragg", "cambridge", "alvarez", "default"] * 5 + ["Bragg", "", "bragg ", "alvarez2", "BRAGG", "cam", None]
+    jobs = []
+    for it in range(ctx.n(160, 1600)):
+        ty = rng.choice(types) if it >= len(types) else types[it]
+        if rng.random() < 0.3:
+            z = rng.choice([1, 2, 6, 86, 87, 96, 97, -1, -87, -88, -97, -98, 0, rng.randrange(-100, 101)])
+            arg = rng.choice([int, np.int64, np.int32, np.int16, np.int8])(z)
+            if 0 <= z < 256 and rng.random() < 0.15:
+                arg = np.uint8(z)
+            tok = f"i {z}"
+        else:
+            k = rng.choice([0, 1, 2, 3, 5, 9])
+            zs = [rng.choice([rng.randrange(1, 87), rng.randrange(1, 97), rng.randrange(-97, 100), 0 if rng.random() < 0.25 else 1]) for _ in range(k)]
+            if rng.random() < 0.08:
+                zs = list(range(1, 87))                      # the call of BeckeWeights.__init__
+            kind = rng.choice(["list", "int64", "int32", "non-contiguous", "read-only"])
+            if kind == "list":
+                arg = [int(z) for z in zs]
+            elif kind == "non-contiguous":
+                arg = np.repeat(np.array(zs, dtype=int), 2)[::2]
+            else:
+                arg = np.array(zs, dtype=np.int32 if kind == "int32" else np.int64)
+                if kind == "read-only":
+                    arg.setflags(write=False)
+            tok = "s " + vec(zs)
+        call = (lambda: U.get_cov_radii(arg)) if ty == "default" else (lambda: U.get_cov_radii(arg, ty))
+        impl = _run(call)
+        if impl[0] == "ok":
+            # the caller owns what it got: scribble, ask again
+            first = call()
+            keep = first.copy()
+            first[...] = -7.0
+            again = call()
+            if not np.array_equal(again, keep, equal_nan=True) or any(np.shares_memory(again, t) for t in (U._bragg, U._cambridge, U._alvarez)):
+                ctx.fail("corr", "utils.get_cov_radii:fresh", f"get_cov_radii({arg!r}, {ty!r}): the array handed out is not the caller's own (a later call sees the caller's edit)",
+                         witness={"atnums": repr(arg), "cov_type": ty})
+        tt = "d" if ty == "default" else vec([ord(ch) for ch in ("<None>" if ty is None else ty)])
+        jobs.append((f"C06.covradii {tt} {tok}", impl, repr(arg), ty))
+    for (line, impl, arg, ty), a in zip(jobs, driver_batch([j[0] for j in jobs])):
+        ctx.count(["covradii", arg, ty], nontrivial=ty in ("cambridge", "alvarez", "default") or impl[0] != "ok", tag=f"covradii:{ty if ty in ('bragg', 'cambridge', 'alvarez', 'default') else 'other'}:{impl[0]}")
+        model = _parse(a)
+        ok = impl[0] == model[0] and (impl[1] is None or (impl[1].shape == model[1].shape and all(
+            (x != x and y != y) or x == y for x, y in zip(impl[1], model[1]))))
+        if not ok:
+            ctx.fail("corr", "utils.get_cov_radii", f"get_cov_radii({arg}, {ty!r}): implementation {impl[0]} {None if impl[1] is None else impl[1][:4]}, generated model {model[0]} {None if model[1] is None else model[1][:4]}",
+                     witness={"atnums": arg, "cov_type": ty, "line": line})
+    if snap != [U._bragg.tobytes(), U._cambridge.tobytes(), U._alvarez.tobytes()]:
+        ctx.fail("corr", "utils.get_cov_radii:tables", "a module-level radius table of grid.utils was modified by get_cov_radii / by an edit of its result")
+        for arr, raw in zip((U._bragg, U._cambridge, U._alvarez), snap):       # do not poison the rest of the run
+            arr[...] = np.frombuffer(raw, dtype=float)
+    # a BeckeWeights built after all this still has the table
+    b = importlib.import_module("grid.becke").BeckeWeights()
+    if not np.array_equal(np.array([b._radii[z] for z in range(1, 87)]), U._bragg[1:87], equal_nan=True):
+        ctx.fail("corr", "becke.__init__:table", "BeckeWeights()._radii differs from grid.utils._bragg[1:87]")
+
+
+def _window_ratio(a):
+    """radius ratio x = r_B / r_A with raw alpha (r_B^2 - r_A^2) / (4 r_A r_B) = a"""
+    return 2 * a + math.sqrt(4 * a * a + 1)
+
+
+def _extreme_variants(ctx: Ctx, mol):
+    """class 7 / 8 variants of one molecule -> list of (kind, molecule, tolerance factor)"""
+    rng = ctx.rng
+    out = []
+    at, pts, nums = mol["at"], mol["pts"], mol["nums"]
+    m = len(at)
+    zs = sorted(set(int(z) for z in nums))
+    # large exactly representable shifts, and moderate ones
+    k = rng.choice([10, 12, 14, 17, 20])
+    sh = np.array([rng.choice([-1, 1]) * 2.0 ** k, rng.choice([0, 1, -1]) * 2.0 ** rng.choice([10, k]), rng.choice([-1, 1]) * 2.0 ** (k - 1)])
+    out.append((f"shift:2^{k}", dict(mol, at=at + sh, pts=pts + sh), float(np.max(np.abs(sh)))))
+    t = np.array([rng.uniform(-50, 50) for _ in range(3)])
+    out.append(("shift:moderate", dict(mol, at=at + t, pts=pts + t), float(np.max(np.abs(t)))))
+    # the whole geometry scaled
+    lam = rng.choice([2.0 ** -40, 2.0 ** 40, 1e-12, 1e12, 1e-6, 1e6, 10.0 ** rng.uniform(-12, 12)])
+    out.append((f"geometry-scale:1e{round(math.log10(lam))}", dict(mol, at=at * lam, pts=pts * lam), 0.0))
+    # radii: every element present gets a user radius; common scale factor 1e-12 .. 1e12 (and 2^+-500)
+    base = {z: rng.uniform(0.4, 4.0) for z in zs}
+    lam = rng.choice([1.0, 2.0 ** -500, 2.0 ** 500, 1e-12, 1e12, 10.0 ** rng.uniform(-12, 12)])
+    out.append((f"radii-scale:1e{round(math.log10(lam))}", dict(mol, over={z: r * lam for z, r in base.items()}), 0.0))
+    # next to the cutoff 0.45 of alpha: raw alpha = 0.45 * f on both sides within 1.01 and 100, and at the edge
+    if len(zs) >= 2:
+        f = rng.choice([1 / 1.01, 1.01, 1 / 100, 100.0, 1 - 1e-12, 1 + 1e-12, 1.0, 1 / 1.0001, 1.0001])
+        x = _window_ratio(0.45 * f)
+        r0 = rng.uniform(0.5, 3.0)
+        over = {z: r0 * (x ** i) for i, z in enumerate(zs[:3])}      # consecutive elements: ratio x (third one x^2: clipped)
+        out.append((f"window:{f:.6g}", dict(mol, over=over), 0.0))
+        # one radius far below / above everything representable next to an ordinary one
+        tiny = rng.choice([1e-300, 5e-324, 1e300, 1e-50])
+        out.append((f"radius:{tiny:g}", dict(mol, over={zs[0]: tiny, zs[1]: rng.uniform(0.5, 3.0)}), 0.0))
+    return out
+
+
+def _corr_extreme(ctx: Ctx, mod):
+    """classes 7 and 8 through the generated routines: the model must follow the implementation on shifted / scaled
+    systems, scaled and extreme radii, and radii on both sides of the clipping window."""
+    rng = ctx.rng
+    jobs = []
+    for it in range(ctx.n(14, 200)):
+        mol = _molecule(ctx, m=rng.choice([2, 2, 3, 4, 5, 7]), n=rng.choice([3, 6, 11]))
+        mol["over"] = {}
+        base_tol = _tol(mol)
+        d0 = min(1.0, _dmin(mol["at"]))
+        for kind, mv, shift in _extreme_variants(ctx, mol):
+            at, nums, pts, m, n = mv["at"], mv["nums"], mv["pts"], len(mv["at"]), len(mv["pts"])
+            try:
+                b = _becke(mod, mv)
+            except Exception as e:
+                ctx.info(f"constructor raised {type(e).__name__} for radii {mv['over']}")
+                continue
+            # the coordinates are the inputs of both sides; only the order of the floating-point operations differs
+            tol = base_tol + 64 * EPS * shift / d0
+            mt, pt = _mol_tokens(mv), _pts_tokens(pts)
+            case = {"atnums": nums, "atcoords": at, "order": mv["order"], "radii": mv["over"], "npoints": n, "points": pts}
+            tab = _table(rng, n, m)
+            k = rng.randrange(m)
+            with warnings_off():
+                r = _run(lambda: np.array([b.generate_weights(pts, at, nums, select=j) for j in range(m)]).T.reshape(n, m))
+                jobs.append((f"C06.weights gw {mt} {pt}", r, "weights:gw", kind, tol, case, "mat"))
+                r = _run(lambda: b(pts, at, nums, np.array(tab)))
+                jobs.append((f"C06.call {mt} {pt} {vec(tab)}", r, "__call__", kind, tol, dict(case, indices=tab), "vec"))
+                r = _run(lambda: b.compute_atom_weight(pts, at, nums, k))
+                jobs.append((f"C06.atom {mt} {pt} {k}", r, "compute_atom_weight", kind, tol, case, "vec"))
+    for (line, impl, key, kind, tol, case, shape), ans in zip(jobs, driver_batch([j[0] for j in jobs])):
+        ctx.count(dict(case, op=key, variant=kind), nontrivial=True, tag="extreme:" + kind.split(":")[0])
+        model = _parse_mat(ans) if shape == "mat" else _parse(ans)
+        if not _same(impl, model, tol):
+            dev = None
+            if impl[1] is not None and model[1] is not None and impl[1].shape == model[1].shape and impl[1].size:
+                dev = float(np.nanmax(np.abs(impl[1] - model[1])))
+            ctx.fail("corr", f"becke.{key}:{kind.split(':')[0]}", f"{key} on a {kind} variant ({len(case['atnums'])} atoms, order {case['order']}, radii {case['radii']}): "
+                     f"implementation {impl[0]}, model {model[0]}, max deviation {dev}", witness=dict(case, impl=impl[1], model=model[1]))
+
+
+def _oracle_alpha_window(ctx: Ctx, mod):
+    """class 7 on the implementation: the documented contract of the cutoff of `_calculate_alpha` (|alpha| <= cutoff < 1/2, the
+    unclipped value inside the window) on both sides of the window within factors 1.0001, 1.01 and 100, against the closed form
+    alpha_raw = (r_B^2 - r_A^2) / (4 r_A r_B) (theorem alpha_raw_closed_form; not the code's u / (u^2 - 1))."""
+    rng = ctx.rng
+    B = mod.BeckeWeights
+    for it in range(ctx.n(60, 600)):
+        c = rng.choice([None, None, 0.45, 0.3, 0.49, rng.uniform(0.05, 0.499)])
+        cut = 0.45 if c is None else c
+        f = rng.choice([1 / 1.01, 1.01, 1 / 100, 100.0, 1 / 1.0001, 1.0001, 1 - 1e-9, 1 + 1e-9, rng.uniform(0.2, 3.0)])
+        x = _window_ratio(cut * f)
+        ra = rng.uniform(0.3, 4.0) * rng.choice([1.0, 1e-9, 1e9])
+        rb = ra * x
+        if rng.random() < 0.5:
+            ra, rb = rb, ra
+        raw = (rb * rb - ra * ra) / (4 * ra * rb)
+        want = min(max(raw, -cut), cut)
+        arr = np.array([ra, rb, ra])
+        got = B._calculate_alpha(arr) if c is None else B._calculate_alpha(arr, cutoff=c)
+        ctx.count(["alpha-window", it, c, f], nontrivial=True, tag="oracle:alpha-window:" + ("inside" if abs(raw) <= cut else "outside"))
+        ok = (abs(got[0, 1] - want) <= 1e-12 and abs(got[1, 0] + want) <= 1e-12 and abs(got[2, 1] - want) <= 1e-12 and got[0, 2] == 0 and got[0, 0] == 0
+              and np.all(np.abs(got) <= cut))
+        if not ok:
+            ctx.fail("oracle", "becke._calculate_alpha:window", f"_calculate_alpha(radii=[{ra!r}, {rb!r}], cutoff={cut}) = {got[0, 1]!r}; the shift u/(u^2-1) = {raw!r} clipped to "
+                     f"[-cutoff, cutoff] is {want!r} (|alpha| must stay <= cutoff < 1/2)", witness=dict(radii=[ra, rb], cutoff=cut, alpha=got[0, 1], raw=raw),
+                     snippet="import numpy as np\nfrom grid.becke import BeckeWeights\n"
+                             f"ra, rb, cut = {ra!r}, {rb!r}, {cut!r}\n"
+                             + ("a = BeckeWeights._calculate_alpha(np.array([ra, rb]))\n" if c is None else "a = BeckeWeights._calculate_alpha(np.array([ra, rb]), cutoff=cut)\n")
+                             + "raw = (rb * rb - ra * ra) / (4 * ra * rb)\n"
+                             "assert abs(a[0, 1] - min(max(raw, -cut), cut)) <= 1e-12 and abs(a[1, 0] + a[0, 1]) <= 1e-12 and np.all(np.abs(a) <= cut), (a, raw)\n")
+
+
+XSNIP = """import warnings; warnings.filterwarnings('ignore')
+import numpy as np
+from grid.becke import BeckeWeights
+from grid.hirshfeld import HirshfeldWeights
+nan = float('nan')
+at = np.array({at!r}, dtype=float).reshape(-1, 3)
+nums = np.array({nums!r}, dtype=int)
+pts = np.array({pts!r}, dtype=float).reshape(-1, 3)
+over = {over!r}; order = {order}
+M, N = len(at), len(pts)
+def weights(b, pts, at):
+    return np.array([b.generate_weights(pts, at, nums, select=k) for k in range(M)])
+b = BeckeWeights(radii=over or None, order=order)
+W = weights(b, pts, at)
+"""
+
+
+def _xsnippet(mol, body):
+    return XSNIP.format(at=mol["at"].reshape(-1).tolist(), nums=[int(z) for z in mol["nums"]], pts=mol["pts"].reshape(-1).tolist(),
+                        over=mol["over"], order=mol["order"]) + body
+
+
+def _oracle_extreme(ctx: Ctx, mod, hmod, budget):
+    """classes 8 and 12 on the implementation: invariance under large exactly representable shifts (bit-exact data),
+    under rotations combined with large and moderate shifts (tolerance eps * |shift| / smallest distance), scaling of the
+    geometry and of the radii; nuclei / mid-points in the shifted frame; all clauses on the extreme variants."""
+    rng = ctx.rng
+    nmol = 120 if budget == "large" else ctx.n(16, 160)
+    worst = ctx.extra.setdefault("invariance_max_deviation", {})
+
+    def rec(k, v):
+        worst[k] = max(worst.get(k, 0.0), float(v))
+
+    for it in range(nmol):
+        mol = _molecule(ctx, m=rng.choice([1, 2, 2, 3, 4, 5, 8]), n=rng.choice([4, 9, 15]))
+        mol["over"] = {z: v for z, v in mol["over"].items() if v == v}
+        q = 2.0 ** -12
+        at = np.round(mol["at"] / q) * q
+        if len(set(map(tuple, at))) < len(at) or _dmin(at) < 0.5:
+            continue
+        pts = np.round(mol["pts"] / q) * q
+        m = len(at)
+        pts[0] = at[rng.randrange(m)]                                   # a nucleus
+        if m >= 2:
+            pts[1] = 0.5 * (at[0] + at[1])                              # a mid-point (exact: dyadic data)
+        mq = dict(mol, at=at, pts=pts)
+        nums, order = mq["nums"], mq["order"]
+        amp = 1.5 ** max(order, 1)                                      # slope of the iterated switching polynomial
+        b = _becke(mod, mq)
+        with warnings_off():
+            W = np.array([b.generate_weights(pts, at, nums, select=k) for k in range(m)])
+            # (a) exact translations: every difference R_A - p is the same floating-point number -> the same weights
+            for k in rng.sample([10, 11, 13, 16, 18, 20, 30], 3):
+                sh = np.array([rng.choice([-1, 1]) * 2.0 ** k, rng.choice([0, 1, -1]) * 2.0 ** rng.choice([10, k]), rng.choice([-1, 1]) * 2.0 ** (k - 1)])
+                assert np.all((at + sh) - sh == at) and np.all((pts + sh) - sh == pts)
+                tab = _table(rng, len(pts), m)
+                own = np.repeat(np.arange(m), np.diff(tab))
+                ctx.count(["oracle", "translation-exact", it, k], nontrivial=True, tag="oracle:translation-exact")
+                for name, got, ref in (("generate_weights", np.array([b.generate_weights(pts + sh, at + sh, nums, select=j) for j in range(m)]), W),
+                                       ("compute_atom_weight", np.array([b.compute_atom_weight(pts + sh, at + sh, nums, j) for j in range(m)]), W),
+                                       ("__call__", b(pts + sh, at + sh, nums, np.array(tab)), W[own, np.arange(len(pts))])):
+                    dev = float(np.max(np.abs(got - ref))) if not np.isnan(got).any() else float("inf")
+                    rec("translation-exact", dev)
+                    if not dev <= 1e-15:
+                        ctx.fail("oracle", f"becke.{name}:translation-exact", f"{name}: weights change by {dev} when the whole system ({m} atoms, dyadic coordinates) is translated by the exactly "
+                                 f"representable vector {sh.tolist()} (every inter-particle difference is unchanged)", witness=dict(atnums=nums, atcoords=at, points=pts, shift=sh, order=order, radii=mq["over"]),
+                                 snippet=_xsnippet(mq, f"sh = np.array({sh.tolist()!r}); tab = np.array({[int(v) for v in tab]!r}); own = np.repeat(np.arange(M), np.diff(tab))\n"
+                                                   "assert np.all((at + sh) - sh == at) and np.all((pts + sh) - sh == pts)\n"
+                                                   "for got, ref in ((weights(b, pts + sh, at + sh), W), (np.array([b.compute_atom_weight(pts + sh, at + sh, nums, k) for k in range(M)]), W),\n"
+                                                   "                 (b(pts + sh, at + sh, nums, tab), W[own, np.arange(N)])):\n"
+                                                   "    assert np.max(np.abs(got - ref)) <= 1e-15, ('weights change under an exact translation', np.max(np.abs(got - ref)))\n"))
+                # the nuclei clause in the shifted frame
+                Wn = np.array([b.generate_weights(at + sh, at + sh, nums, select=j) for j in range(m)])
+                if not np.all(np.abs(Wn - np.eye(m)) <= 1e-13):
+                    ctx.fail("oracle", "becke.generate_weights:nuclei-shifted", f"weights at the nuclei of a system translated by {sh.tolist()} are not 1 (own) / 0 (others)",
+                             witness=dict(atnums=nums, atcoords=at + sh, order=order),
+                             snippet=_xsnippet(dict(mq, at=at + sh, pts=at + sh), "assert np.all(np.abs(W - np.eye(M)) <= 1e-13), W\n"))
+            # (b) rotation + shift (large and moderate), general data: tolerance eps * |shift| / smallest distance
+            gat, gpts = mol["at"], mol["pts"]
+            d0 = min(1.0, _dmin(gat))
+            far = float(np.max(np.linalg.norm(gpts[:, None] - gat, axis=-1)))
+            G = np.array([b.generate_weights(gpts, gat, nums, select=j) for j in range(m)])
+            for k in (rng.choice([10, 12, 15, 17, 20]), None):
+                R = _rotation(rng)
+                t = np.array([rng.choice([-1, 1]) * 2.0 ** k, 2.0 ** k, -(2.0 ** (k - 1))]) if k is not None else np.array([rng.uniform(-100, 100) for _ in range(3)])
+                G2 = np.array([b.generate_weights(gpts @ R.T + t, gat @ R.T + t, nums, select=j) for j in range(m)])
+                size = max(1.0, float(np.max(np.abs(t))), far)
+                tol = 16 * EPS * size * amp / d0
+                dev = float(np.max(np.abs(G2 - G))) if not np.isnan(G2).any() else float("inf")
+                rec("rigid-motion:large" if k is not None else "rigid-motion:moderate", dev / tol)
+                ctx.count(["oracle", "rigid-motion", it, k], nontrivial=True, tag="oracle:rigid-motion:" + ("large" if k is not None else "moderate"))
+                if not dev <= tol:
+                    ctx.fail("oracle", "becke.generate_weights:rigid-motion-shift", f"weights change by {dev} (allowed {tol:.3g} = 16 eps |shift| 1.5^order / d_min) under a rotation and a shift of {t.tolist()} ({m} atoms)",
+                             witness=dict(atnums=nums, atcoords=gat, points=gpts, rotation=R, translation=t, order=order, radii=mq["over"]),
+                             snippet=_xsnippet(dict(mq, at=gat, pts=gpts), f"R = np.array({R.reshape(-1).tolist()!r}).reshape(3, 3); t = np.array({t.tolist()!r})\n"
+                                               f"assert np.max(np.abs(weights(b, pts @ R.T + t, at @ R.T + t) - W)) <= {tol!r}\n"))
+            # (c) scaling the geometry (degree-0 homogeneity of mu) and the radii (alpha depends on ratios only)
+            for lam in (2.0 ** rng.choice([-40, -20, 20, 40]), 10.0 ** rng.choice([-12, -7, -3, 3, 7, 12])):
+                G2 = np.array([b.generate_weights(gpts * lam, gat * lam, nums, select=j) for j in range(m)])
+                tol = 1e-15 if lam in (2.0 ** -40, 2.0 ** -20, 2.0 ** 20, 2.0 ** 40) else 200 * EPS * amp * max(1.0, far) / d0
+                dev = float(np.max(np.abs(G2 - G))) if not np.isnan(G2).any() else float("inf")
+                rec("geometry-scale", dev)
+                ctx.count(["oracle", "geometry-scale", it, lam], nontrivial=True, tag="oracle:geometry-scale")
+                if not dev <= tol:
+                    ctx.fail("oracle", "becke.generate_weights:geometry-scale", f"weights change by {dev} when all coordinates are multiplied by {lam!r}",
+                             witness=dict(atnums=nums, atcoords=gat, points=gpts, factor=lam, order=order, radii=mq["over"]),
+                             snippet=_xsnippet(dict(mq, at=gat, pts=gpts), f"assert np.max(np.abs(weights(b, pts * {lam!r}, at * {lam!r}) - W)) <= {tol!r}\n"))
+            zs = sorted(set(int(z) for z in nums))
+            base = {z: rng.uniform(0.4, 4.0) for z in zs}
+            b0 = mod.BeckeWeights(radii=dict(base), order=order)
+            G0 = np.array([b0.generate_weights(gpts, gat, nums, select=j) for j in range(m)])
+            for lam in (2.0 ** rng.choice([-500, -60, 60, 500]), 10.0 ** rng.choice([-12, -5, 5, 12])):
+                b1 = mod.BeckeWeights(radii={z: r * lam for z, r in base.items()}, order=order)
+                G2 = np.array([b1.generate_weights(gpts, gat, nums, select=j) for j in range(m)])
+                dev = float(np.max(np.abs(G2 - G0))) if not np.isnan(G2).any() else float("inf")
+                rec("radii-scale", dev)
+                ctx.count(["oracle", "radii-scale", it, lam], nontrivial=True, tag="oracle:radii-scale")
+                if not dev <= 1e-13 * amp:
+                    ctx.fail("oracle", "becke.generate_weights:radii-scale", f"weights change by {dev} when all radii are multiplied by {lam!r} (alpha depends on radius ratios only)",
+                             witness=dict(atnums=nums, atcoords=gat, points=gpts, radii=base, factor=lam, order=order),
+                             snippet=_xsnippet(dict(mq, at=gat, pts=gpts, over=base), f"b1 = BeckeWeights(radii={{z: r * {lam!r} for z, r in over.items()}}, order=order)\n"
+                                               f"assert np.max(np.abs(weights(b1, pts, at) - W)) <= {1e-13 * amp!r}\n"))
+        # (d) every clause on the extreme variants (partition, bounds, nuclei, all routes)
+        if it % 2 == 0:
+            for kind, mv, _shift in _extreme_variants(ctx, dict(mol, over={})):
+                if kind.startswith("shift:2^"):
+                    # far from the origin the coordinates themselves carry ~ eps * |shift|: use the dyadic copy
+                    mv = dict(mv, at=at + (mv["at"][0] - mol["at"][0]), pts=pts + (mv["at"][0] - mol["at"][0]))
+                ctx.count(["oracle", "extreme", it, kind], nontrivial=True, tag="oracle:extreme:" + kind.split(":")[0])
+                with warnings_off():
+                    _oracle_molecule(ctx, mod, mv, _table(rng, len(mv["pts"]), len(mv["at"])), motions=False)
+    # Hirshfeld: exact translations, nearly coincident nuclei, mid-points (class 12)
+    H = hmod.HirshfeldWeights
+    for it in range(40 if budget == "large" else ctx.n(5, 50)):
+        at, nums, pts, tab = _hirshfeld_case(ctx, hmod)
+        q = 2.0 ** -12
+        at, pts = np.round(at / q) * q, np.round(pts / q) * q
+        m, n = len(at), len(pts)
+        if m >= 2:
+            pts[0] = 0.5 * (at[0] + at[1])
+        ref = H()(pts, at, nums, np.array(tab))
+        k = rng.choice([10, 14, 17, 20])
+        sh = np.array([2.0 ** k, -(2.0 ** k), 2.0 ** (k - 1)])
+        got = H()(pts + sh, at + sh, nums, np.array(tab))
+        ctx.count(["oracle", "hirshfeld-translation", it, k], nontrivial=True, tag="oracle:hirshfeld:translation-exact")
+        if not np.array_equal(got, ref, equal_nan=True):
+            ctx.fail("oracle", "hirshfeld.__call__:translation-exact", f"Hirshfeld weights change by {float(np.nanmax(np.abs(got - ref)))} when the system (dyadic coordinates) is translated by {sh.tolist()}",
+                     witness=dict(atnums=nums, atcoords=at, points=pts, indices=tab, shift=sh), snippet=_hsnippet(at + sh, nums, pts + sh, tab))
+        if m >= 2:
+            # two nuclei 1e-6 apart: the shares must still sum to one and be the pro-atom ratios
+            at2 = at.copy()
+            d = np.array([rng.gauss(0, 1) for _ in range(3)])
+            at2[1] = at2[0] + d / np.linalg.norm(d) * 1e-6
+            per = np.array([H()(pts, at2, nums, np.array([0] * (j + 1) + [n] * (m - j))) for j in range(m)])
+            ctx.count(["oracle", "hirshfeld-close", it], nontrivial=True, tag="oracle:hirshfeld:close-nuclei")
+            if not np.all(np.abs(per.sum(axis=0) - 1) <= 1e-12 * np.maximum(1, np.abs(per).sum(axis=0))):
+                ctx.fail("oracle", "hirshfeld.__call__:sum-one", f"Hirshfeld weights of {m} atoms (two of them 1e-6 apart) sum to {per.sum(axis=0).tolist()}",
+                         witness=dict(atnums=nums, atcoords=at2, points=pts, indices=tab), snippet=_hsnippet(at2, nums, pts, tab))
+
+
+HIST = """import warnings; warnings.filterwarnings('ignore')
+import numpy as np
+from grid.becke import BeckeWeights
+from grid.hirshfeld import HirshfeldWeights
+from grid.utils import get_cov_radii
+nan = float('nan')
+at = np.array({at!r}, dtype=float).reshape(-1, 3); nums = np.array({nums!r}, dtype=int)
+pts = np.array({pts!r}, dtype=float).reshape(-1, 3); tab = np.array({tab!r}, dtype=int)
+radii = {over!r}; order = {order}; k = {k}; scenario = {scenario!r}
+def routes(b):
+    return [b(pts, at, nums, tab), b.generate_weights(pts, at, nums, pt_ind=list(tab)), b.compute_weights(pts, at, nums, pt_ind=list(tab)),
+            b.compute_atom_weight(pts, at, nums, k), b.generate_weights(pts, at, nums, select=k)]
+ref = routes(BeckeWeights(radii=dict(radii) or None, order=order))
+def same(x, y):
+    return all(np.array_equal(a, b, equal_nan=True) for a, b in zip(x, y))
+if scenario == 'dict-modified-afterwards':
+    d = dict(radii); b = BeckeWeights(radii=d, order=order); keep = dict(d)
+    first = routes(b)
+    for z in list(d): d[z] = 7.5
+    d[1] = 0.123; d[55] = nan
+    assert same(routes(b), ref) and same(first, ref), 'the weights follow an edit of the dictionary made after the constructor'
+elif scenario == 'dict-shared':
+    d = dict(radii); keep = repr(d); b1 = BeckeWeights(radii=d, order=order); b2 = BeckeWeights(radii=d, order=order)
+    assert repr(d) == keep, 'the constructor modified the dictionary it was given'
+    assert same(routes(b1), ref) and same(routes(b2), ref) and same(routes(b1), ref)
+elif scenario == 'results-edited':
+    b = BeckeWeights(radii=dict(radii) or None, order=order)
+    for rep in range(2):
+        got = routes(b)
+        assert same(got, ref), 'a result changed after the caller edited an earlier result in place'
+        for g in got: g[...] = -3.0
+elif scenario == 'cutoff-alternating':
+    b = BeckeWeights(radii=dict(radii) or None, order=order)
+    for cut in (0.2, 0.45, 0.49, 0.3, 0.45):
+        assert np.array_equal(b.compute_atom_weight(pts, at, nums, k, cutoff=cut) if cut != 0.3 else b.compute_atom_weight(pts, at, nums, k, cut), ref[3], equal_nan=True)
+        assert same(routes(b), ref)
+elif scenario == 'order-of-methods':
+    b = BeckeWeights(radii=dict(radii) or None, order=order)
+    for perm in ({perm!r}):
+        got = [None] * 5
+        fns = [lambda: b(pts, at, nums, tab), lambda: b.generate_weights(pts, at, nums, pt_ind=list(tab)),
+               lambda: b.compute_weights(pts, at, nums, pt_ind=list(tab)), lambda: b.compute_atom_weight(pts, at, nums, k),
+               lambda: b.generate_weights(pts, at, nums, select=k)]
+        for i in perm:
+            got[i] = fns[i]()
+        assert same(got, ref), 'the answer of a route depends on which other routes were called before on the same object'
+elif scenario == 'cov-radii-edited':
+    r = get_cov_radii(np.arange(1, 87, 1), 'bragg'); r[...] = 1.0
+    r2 = get_cov_radii(6); r2[...] = 9.0
+    assert same(routes(BeckeWeights(radii=dict(radii) or None, order=order)), ref), 'an edit of the array get_cov_radii handed out changes later BeckeWeights objects'
+elif scenario == 'hirshfeld-reuse':
+    hn = np.array({hnums!r}, dtype=int)
+    href = HirshfeldWeights()(pts, at, hn, tab)
+    h = HirshfeldWeights()
+    for rep in range(3):
+        got = h(pts, at, hn, tab)
+        assert np.array_equal(got, href, equal_nan=True), 'HirshfeldWeights: a repeated call on one object differs'
+        got[...] = -1.0
+        p = HirshfeldWeights.generate_proatom(pts, at[0], hn[0]); p[...] = 0.0
+"""
+
+
+def _oracle_histories(ctx: Ctx, mod, hmod, budget):
+    """classes 9 / 10 / 11 on the implementation: dictionaries, objects and results that the caller keeps using.  Every
+    scenario is a self-contained script (it is its own replay); the reference is always a freshly built object."""
+    rng = ctx.rng
+    scenarios = ["dict-modified-afterwards", "dict-shared", "results-edited", "cutoff-alternating", "order-of-methods", "cov-radii-edited", "hirshfeld-reuse"]
+    for it in range(35 if budget == "large" else ctx.n(14, 70)):
+        sc = scenarios[it % len(scenarios)]
+        mol = _molecule(ctx, m=rng.choice([2, 3, 4, 5]), n=rng.choice([4, 7, 12]))
+        zs = sorted(set(int(z) for z in mol["nums"]))
+        over = {z: rng.uniform(0.4, 4.0) for z in rng.sample(zs, k=rng.randrange(1, len(zs) + 1))} if sc.startswith("dict") or rng.random() < 0.5 else {}
+        tab = _table(rng, len(mol["pts"]), len(mol["at"]))
+        perms = []
+        for _ in range(3):
+            p = list(range(5))
+            rng.shuffle(p)
+            perms.append(p)
+        src = HIST.format(at=mol["at"].reshape(-1).tolist(), nums=[int(z) for z in mol["nums"]], pts=mol["pts"].reshape(-1).tolist(), tab=[int(v) for v in tab],
+                          over=over, order=mol["order"], k=rng.randrange(len(mol["at"])), scenario=sc, perm=perms,
+                          hnums=[rng.choice([1, 6, 7, 8]) for _ in mol["nums"]])
+        ctx.count(["history", sc, it], nontrivial=True, tag="history:" + sc)
+        ctx.traces += 1
+        U = importlib.import_module("grid.utils")
+        keep = {n: getattr(U, n).copy() for n in ("_bragg", "_cambridge", "_alvarez")}
+        try:
+            exec(compile(src, f"<C06 history {sc}>", "exec"), {"__name__": "__c06_history__"})
+        except AssertionError as e:
+            ctx.fail("oracle", f"becke.history:{sc}", f"scenario `{sc}`: {e}", witness=dict(scenario=sc, atnums=mol["nums"], atcoords=mol["at"], points=mol["pts"], indices=tab, radii=over, order=mol["order"]),
+                     snippet=src)
+        except Exception as e:
+            ctx.fail("oracle", f"becke.history:{sc}", f"scenario `{sc}` raised {type(e).__name__}: {e}", witness=dict(scenario=sc, atnums=mol["nums"], atcoords=mol["at"], radii=over), snippet=src)
+        finally:
+            for n, arr in keep.items():          # a scenario that managed to edit a module table must not poison the rest of the run
+                if not np.array_equal(getattr(U, n), arr, equal_nan=True):
+                    getattr(U, n)[...] = arr
